@@ -22,6 +22,19 @@ const (
 )
 
 func runC04(c *core.Ctx) {
+	runC04own(c)
+	// clauses of the statement whose structural core is decided by rules written for a sibling
+	// property: "a rollback is never sent once the primary commit may have taken effect" (C03.R1-R3,
+	// R7), "a live lock is waited for ... never removed" + "only the outcome the store reported"
+	// (C02.R1-R3, R5, R6), "every commit timestamp exceeds ... every timestamp the oracle had issued
+	// before Commit was called / every min-commit ts returned by a prewrite" (C01.R2-R5), the
+	// operation table (C01.R7).
+	c.Import(runC03, "C03", []string{"R1", "R2", "R3", "R7"}, "viaC03")
+	c.Import(runC02, "C02", []string{"R1", "R2", "R3", "R5", "R6"}, "viaC02")
+	c.Import(runC01, "C01", []string{"R2", "R3", "R4", "R5", "R7"}, "viaC01")
+}
+
+func runC04own(c *core.Ctx) {
 	p := c.P
 	a0 := rule(c, "C04.anchors")
 	isAsync := a0.fn(pkgTxn, "twoPhaseCommitter", "isAsyncCommit")
